@@ -19,6 +19,11 @@ CHECKS = {
    text="search routines return None/input or a valid colour within the symbolic tolerance given; strict mode <= 5.0; modes 1/2 satisfy the REACH(3.0) chain invariant "
         "(resp. REACH or <= 15.0). DE is the CIEDE2000 symbol fixed by C11.",
    note=TB + "assumes C11 (DE is CIEDE2000, 0 for identical colours), C06 read-back.", ref='§8 C04'),
+ 'C06': dict(cat='proof', tech='exhaustive evaluation of the real formatter/parser on all 2^24 colours x 4 formats (engine D) + contract-based deductive verification of the format table (engine A)',
+   text="round trip READ(format_color(c,f)) == CSS(format_color(c,f)) == c: thorough tier enumerates all 16,777,216 colours x {hex, rgb(), hsl(), tuple} with the real code, the "
+        "library parser and an independent CSS Color 3 reference parser (complete, exhaustive:true); quick tier is a bounded sub-domain. format_color's table and make_readable's "
+        "format_kept on all three outcome paths are proved by engine A on the real ASTs. Input-class tagging (detect_color_format) is enumerated by engine E (bounded).",
+   note=TB + "reference CSS parser in /verif/oracles (cross-checked against tinycss2.color3 each run); str.strip/lower/regex semantics assumed for the input-class dispatch.", ref='§8 C06'),
  'C16': dict(cat='other', tech='contract-based deductive verification (clause 1) + bounded run-time relational contract (clause 2)',
    text="clause 1 (mode 2 returns mode 1's result whenever mode 1 succeeds) is proved through the pure function symbol of _strategy_recursive; clause 2 "
         "(very_readable success => plain success) is a relational 2-run property checked only by a bounded run-time contract on generated pairs - not counted as proved.",
@@ -42,7 +47,8 @@ man = {
            'source_commits': [], 'add_only': True},
  'engines': [
    {'name': 'A pyvc', 'path': 'vf/symex.py', 'serves_properties': ['C01', 'C02', 'C04', 'C16'], 'kind_free_text': 'AST -> verification conditions, modular contracts, z3/cvc5'},
-   {'name': 'E rtc', 'path': 'vf/rtc.py', 'serves_properties': ['C01', 'C02', 'C04', 'C16'], 'kind_free_text': 'bounded run-time contracts on the real functions with independent oracles (never counted as proved)'},
+   {'name': 'D fdx', 'path': 'vf/fdx.py', 'serves_properties': ['C01', 'C06'], 'kind_free_text': 'exhaustive evaluation of the real functions on finite colour domains (16 processes)'},
+   {'name': 'E rtc', 'path': 'vf/rtc.py', 'serves_properties': ['C01', 'C02', 'C04', 'C06', 'C16'], 'kind_free_text': 'bounded run-time contracts on the real functions with independent oracles (never counted as proved)'},
  ],
  'checks': checks,
  'not_applicable': [{'property_id': p, 'reason': NA_REASON.get(p, PENDING)} for p in ALL if p not in CHECKS],
